@@ -488,6 +488,7 @@ def check_scope_core(check, an: Analysis, rule: str = 'scope', skip=()):
         c04.check_copy_iteration(check, an, rule)
     if 'only-exit' not in skip:
         c04.check_only_the_exit_closes(check, an, rule, receivers)
+    c04.check_scope_state_private(check, an, rule)
     if 'task-close' not in skip:
         c04.check_task_close(check, an, rule)
     if 'until' not in skip:
